@@ -142,6 +142,9 @@ func (matrix *DenseFloat32Matrix) DIAG() DenseFloat32Vector {
   return DenseFloat32Vector(v)
 }
 func (matrix *DenseFloat32Matrix) SLICE(rfrom, rto, cfrom, cto int) *DenseFloat32Matrix {
+  if rfrom < 0 || rto > matrix.rows || rfrom > rto || cfrom < 0 || cto > matrix.cols || cfrom > cto {
+    panic(fmt.Errorf("slice [%d:%d,%d:%d] out of bounds for matrix of dimension %dx%d", rfrom, rto, cfrom, cto, matrix.rows, matrix.cols))
+  }
   m := *matrix
   m.rowOffset += rfrom
   m.rows = rto - rfrom
